@@ -286,16 +286,17 @@ prop("C07", "exploration",
 prop("C03", "exploration",
      "cases = iterations on a real netpoll.Poller whose loop has no source of wake-ups other than its eventfd (quick 20000, thorough 400000 per variant; default and poll_opt pollers): wait until the loop is blocked "
      "in epoll_wait(-1) (3/4 of the iterations) or start while it is still draining, then 1-8 producers each Trigger 1-3 uniquely numbered high/low-priority tasks (every 200th iteration a burst of 300-1500 per "
-     "producer, crossing the 256-task low-priority batch and the 1024-task urgent threshold); the poller and queue sources are rewritten with a yield point before every atomic / queue / eventfd / epoll operation and "
+     "producer; half of the bursts are submitted by one task running on the loop itself, so that the urgent queue really holds > 1024 and the low-priority queue > 256 tasks when the loop gets to them); the poller and queue sources are rewritten with a yield point before every atomic / queue / eventfd / epoll operation and "
      "one or two focus points per iteration pause 0.1-0.5 ms. Oracle at quiescence: every accepted task ran exactly once, on the polling goroutine, high-priority tasks of one producer in issue order; tasks still "
      "pending after the watchdog with every producer returned and the loop inside the same blocking epoll_wait at three samples one second apart = lost wake-up (confirmed by an unrelated Trigger that makes them "
-     "run). The engine-level clauses (AsyncWrite/AsyncWritev order at the peer, async callbacks exactly once, CloseWithCallback callback once, Wake = one OnTraffic) are checked by the engine jobs. "
+     "run). The engine-level clauses (AsyncWrite/AsyncWritev order at the peer, async callbacks exactly once, CloseWithCallback callback once, Wake = one OnTraffic; Register/Enroll results delivered exactly once also when the registration fails) are checked by the engine jobs (modes c02, c04, c19). "
      "distinct_nontrivial = distinct global orders of yield-point hits per iteration (interleaving signatures)",
      [
          {"harness": "wake", "flavour": "shim+points", "args": {"quick": [], "thorough": []}, "timeout": {"quick": 900, "thorough": 3400}},
          {"harness": "wake", "flavour": "shim+points", "tags": ["poll_opt"], "args": {"quick": ["--n", "8000"], "thorough": ["--n", "200000"]}, "timeout": {"quick": 900, "thorough": 3400}},
          {"harness": "eng", "flavour": "shim", "args": {"quick": ["--mode", "c02", "--n", "6"], "thorough": ["--mode", "c02", "--n", "30"]}, "timeout": {"quick": 900, "thorough": 3400}},
          {"harness": "eng", "flavour": "shim", "args": {"quick": ["--mode", "c04", "--n", "6"], "thorough": ["--mode", "c04", "--n", "30"]}, "timeout": {"quick": 900, "thorough": 3400}},
+         {"harness": "eng", "flavour": "shim", "args": {"quick": ["--mode", "c19", "--n", "4"], "thorough": ["--mode", "c19", "--n", "24"]}, "timeout": {"quick": 900, "thorough": 3400}},
      ],
      "Exactly-once / ordering counters plus the state-based lost-wake-up predicate over the real poller under delay injection at the granularity of single atomic operations.",
      "threads are real (delay injection, not a scheduler): interleavings are sampled; x86-TSO only; kqueue pollers cannot run here",
